@@ -268,4 +268,46 @@ theorem emitCode_ids_nodup (c : InCode) (pfs : List ParsedFunc) (oc : OutCode)
     exact List.nodup_range' (step := 1)
   exact (List.Sublist.map _ List.filter_sublist).nodup hnd
 
+/-- **every local function is emitted exactly once**: the ids of the emitted functions are a
+    permutation of the ids the parse handed out (`importedFuncs + position` for each function of
+    the input's code section) -/
+theorem emitCode_ids_perm (c : InCode) (pfs : List ParsedFunc) (oc : OutCode)
+    (hp : parseCode c = some pfs) (he : emitCode c pfs = some oc) :
+    (oc.funcs.map (·.id)).Perm ((List.range c.funcs.length).map (c.importedFuncs + ·)) := by
+  obtain ⟨hlen, hspec⟩ := parseCode_spec c pfs hp
+  unfold emitCode emitCodeWith keepAll at he
+  simp only [Option.map_eq_some_iff] at he
+  obtain ⟨fs, hfs, rfl⟩ := he
+  simp only
+  have hmap := mapM_some_map_key _ (fun p : ParsedFunc × Nat => p.1.id) (fun f : OutFunc => f.id) (by
+    intro a b hab
+    split at hab
+    · injection hab with hab; subst hab; rfl
+    · cases hab) _ _ hfs
+  rw [hmap]
+  refine ((sortBy_perm _ _).map _).trans ?_
+  rw [List.map_map]
+  have hids : pfs.map (·.id) = (List.range pfs.length).map (c.importedFuncs + ·) := by
+    apply List.ext_getElem?
+    intro k
+    by_cases hk : k < pfs.length
+    · have hk' : k < c.funcs.length := hlen ▸ hk
+      obtain ⟨pf, hpf, hid, _⟩ := hspec k c.funcs[k] (by simp [hk'])
+      have hget : pfs[k] = pf := (List.getElem?_eq_some_iff.1 hpf).2
+      simp [hk, hget, hid]
+    · simp [hk]
+  have hall : pfs.filter (fun f => (List.range (c.importedFuncs + pfs.length)).contains f.id) = pfs := by
+    rw [List.filter_eq_self]
+    intro a ha
+    have : a.id ∈ pfs.map (·.id) := List.mem_map.2 ⟨a, ha, rfl⟩
+    rw [hids] at this
+    simp only [List.mem_map, List.mem_range] at this
+    obtain ⟨k, hk, hk2⟩ := this
+    simp only [List.contains_eq_mem, List.mem_range, decide_eq_true_eq]
+    omega
+  rw [hall]
+  have : (List.map ((fun p : ParsedFunc × Nat => p.1.id) ∘ fun f => (f, funcSize (PSeqs.toArena f.seqs) 0)) pfs) = pfs.map (·.id) := by
+    apply List.map_congr_left; intro a _; rfl
+  rw [this, hids, hlen]
+
 end Walrus
